@@ -100,7 +100,21 @@ def r2_4(ctx):
               "the returned Vec is the one the slices were pushed to")
 
 
+def r2_5(ctx):
+    """accounting (same simulation as C01): every consumed line / passed expectation was recorded"""
+    m = diffstate.analyse(ctx.prog)
+    for (rule, key), v in sorted(m.obl.items()):
+        if rule in ("R1.1", "R1.2", "R1.3", "R1.5") or (rule == "R1.4" and key.startswith("matched-range-nonempty")):
+            k = "%s:%s" % (rule, key)
+            if v["ok"]:
+                ctx.ok(k, v["where"], v["what"])
+            else:
+                ctx.bad(k, v["where"], v["what"])
+
+
 def run(ctx):
+    ctx.run_rule("R2.5", "accounting: a cursor moves only past lines / expectations that were recorded (or optional expectations); function exit reports the rest - "
+                 "every line and every non-optional expectation is mentioned [E-STATE, obligations shared with C01]", r2_5, floor=15)
     for rule in ("R2.1", "R2.2", "R2.3"):
         ctx.run_rule(rule, TEXT[rule], _mk(rule), floor={"R2.1": 9, "R2.2": 1, "R2.3": 3}[rule])
     ctx.run_rule("R2.4", "split_at_newline: pushed slices start at `start`, end at index+1 on the newline edge, start := index+1, rest pushed iff start < len (partition, terminators kept) [E-STATE shape]", r2_4, floor=7)
